@@ -119,6 +119,7 @@ def SliceKeepsWaiting (c : Ctl) (v : Slice) : Prop :=
 theorem slice_write_sound (c : Ctl) (v : Slice) (c' : Ctl) (hstep : stepC c (.slice v) = some c')
     (hs : ResyncSound c) (hwf0 : WF c)
     (hwf : WF { c with slices := upsertBy (fun x => x.ns = v.ns ∧ x.name = v.name) v c.slices })
+    (hsame : ∀ o ∈ c.slices, o.ns = v.ns → o.name = v.name → o.svc = v.svc)
     (hkeep : SliceKeepsWaiting c v) : ResyncSound c' := by
   simp only [stepC, Option.some.injEq] at hstep
   subst hstep
@@ -166,7 +167,8 @@ theorem slice_write_sound (c : Ctl) (v : Slice) (c' : Ctl) (hstep : stepC c (.sl
     have hon : o.ns = v.ns ∧ o.name = v.name := by
       have := List.find?_some hfo
       simpa using this
-    have hrun : runAll c1 [Ev.slUpd o v] = sliceUpsert c1 (some o) v := by simp [runAll, runEvents, handle, hfind]
+    have hrun : runAll c1 [Ev.slUpd o v] = sliceUpsert c1 (some o) v := by
+      simp [runAll, runEvents, handle, hfind, sliceEvent, hsame o ho hon.1 hon.2]
     show ResyncSound (runAll c1 [Ev.slUpd o v])
     rw [hrun]
     apply sliceUpsert_sound c1 (some o) v hv1 hpre
@@ -230,11 +232,12 @@ theorem slice_delete_sound (c : Ctl) (ns name : String) (c' : Ctl) (hstep : step
 
 /-! ### Pod events -/
 
-theorem pod_write_sound (c : Ctl) (v : Pod) (c' : Ctl) (hstep : stepC c (.pod v) = some c')
+theorem pod_write_sound (c : Ctl) (v : Pod) (c' : Ctl) (hph : v.phase ≠ "F") (hstep : stepC c (.pod v) = some c')
     (hs : ResyncSound c)
     (hwf : WF { c with pods := upsertBy (fun x => x.ns = v.ns ∧ x.name = v.name) v c.pods })
     (hgood : PodGood c v) : ResyncSound c' := by
-  simp only [stepC, Option.some.injEq] at hstep
+  rw [stepC_pod c v hph] at hstep
+  simp only [Option.some.injEq] at hstep
   subst hstep
   let c1 : Ctl := { c with pods := upsertBy (fun x => x.ns = v.ns ∧ x.name = v.name) v c.pods }
   have hfind : findPod c1.pods v.ns v.name = some v := by
@@ -413,9 +416,10 @@ theorem recompute_fold_sound (l : List Svc) (c : Ctl) (hs : ResyncSound c) :
         · exact rebuildService_sound acc.1 _ h
   exact hgen l (c, false) hs
 
-theorem pod_label_edit_sound (c : Ctl) (v : Pod) (c' : Ctl) (hstep : stepC c (.pod v) = some c')
+theorem pod_label_edit_sound (c : Ctl) (v : Pod) (c' : Ctl) (hph : v.phase ≠ "F") (hstep : stepC c (.pod v) = some c')
     (hs : ResyncSound c) (hgood : PodLabelGood c v) : ResyncSound c' := by
-  simp only [stepC, Option.some.injEq] at hstep
+  rw [stepC_pod c v hph] at hstep
+  simp only [Option.some.injEq] at hstep
   subst hstep
   let c1 : Ctl := { c with pods := upsertBy (fun x => x.ns = v.ns ∧ x.name = v.name) v c.pods }
   have hfind : findPod c1.pods v.ns v.name = some v := by
@@ -472,7 +476,7 @@ theorem pod_label_edit_sound (c : Ctl) (v : Pod) (c' : Ctl) (hstep : stepC c (.p
 /-! ### Service and Node writes do not touch `needResync`, slices or pods -/
 
 theorem svc_write_sound (c : Ctl) (v : Svc) (c' : Ctl) (hstep : stepC c (.svc v) = some c')
-    (hs : ResyncSound c) : ResyncSound c' := by
+    (hconv : convNs c.nss v = v) (hs : ResyncSound c) : ResyncSound c' := by
   simp only [stepC, Option.some.injEq] at hstep
   subst hstep
   let c1 : Ctl := { c with svcs := upsertBy (fun x => x.ns = v.ns ∧ x.name = v.name) v c.svcs }
@@ -489,11 +493,13 @@ theorem svc_write_sound (c : Ctl) (v : Svc) (c' : Ctl) (hstep : stepC c (.svc v)
   cases hfo : findSvc c.svcs v.ns v.name with
   | none =>
     show ResyncSound (runAll c1 [Ev.svcAdd v])
-    have : runAll c1 [Ev.svcAdd v] = serviceUpsert c1 v := by simp [runAll, runEvents, handle, hfind]
+    have hc1 : convNs c1.nss v = v := hconv
+    have : runAll c1 [Ev.svcAdd v] = serviceUpsert c1 v := by simp [runAll, runEvents, handle, hfind, hc1]
     rw [this]; exact hfin
   | some o =>
     show ResyncSound (runAll c1 [Ev.svcUpd o v])
-    have : runAll c1 [Ev.svcUpd o v] = serviceUpsert c1 v := by simp [runAll, runEvents, handle, hfind]
+    have hc1 : convNs c1.nss v = v := hconv
+    have : runAll c1 [Ev.svcUpd o v] = serviceUpsert c1 v := by simp [runAll, runEvents, handle, hfind, hc1]
     rw [this]; exact hfin
 
 theorem svc_delete_sound (c : Ctl) (ns name : String) (c' : Ctl) (hstep : stepC c (.delSvc ns name) = some c')
